@@ -20,7 +20,7 @@ class View:
         )
         d = sorted(dumps([m["type"], m["payload"], m["attempts"]]) for m in self.dlq)
         st = {
-            lab: [s["status"], s["ctx"], s["out"], s["started"], s["ended"], s["tasks"]]
+            lab: [s["status"], s["ctx"], s["out"], s["started"], s["ended"], s["tasks"]] + ([s["erank"]] if "erank" in s else [])
             for lab, s in self.stages.items()
         }
         return {"wf": self.wf, "st": st, "q": q, "d": d, "c": sorted(self.claims)}
@@ -108,6 +108,11 @@ def take_view(world) -> View:
             "owner": r["synthetic_stage_owner"],
             "reqs": json.loads(r["requisite_stage_ref_ids"] or "[]"),
         }
+    if getattr(world, "time_rank", False):
+        ended = sorted({r["end_time"] for r in srows if r["end_time"] is not None})
+        for r in srows:
+            if r["end_time"] is not None:
+                v.stages[labels[r["id"]]]["erank"] = ended.index(r["end_time"])
     v.task_ids = {}
     for r in c.execute("SELECT id,stage_id,name,status,start_time FROM task_executions ORDER BY id"):
         if r["stage_id"] not in byid:
